@@ -15,6 +15,7 @@ sys.path.insert(0, os.path.dirname(os.path.dirname(os.path.abspath(__file__))))
 from harness import agp, agpnative as an  # noqa: E402
 from symex import report  # noqa: E402
 from symex.core import Explorer  # noqa: E402
+import z3  # noqa: E402
 
 PID = 'C16'
 WANT = ('C16',)
@@ -28,9 +29,9 @@ def fault_step_job(N, k, recalc, exc, later=0):
 
     def h(ex):
         del agp.PRINTS[:]
-        solver, prob, items, info = agp.inv_state(ex, N, k, recalc=recalc, md_inf=True, best=None if k > 1 else 0, fail=(k + later, exc))
+        solver, prob, items, info = agp.inv_state(ex, N, k, recalc=recalc, md_inf=True, best=None if k > 1 else 0, fail=(k + later, exc), iters_limit=1000)
         # the run is not over yet, and the counters are those of a run made of global iterations only (Inv)
-        ex.assume(info['spec']['iterations'].t < 1000)
+        ex.assume(z3.And(info['spec']['iterations'].t >= 994, info['spec']['iterations'].t < 997))      # a few iterations are left, so a run that goes on ends soon
         ex.assume(info['spec']['trials'].t == k)
         n0 = len(prob.started)
         sol = solver.Solve()
